@@ -77,6 +77,7 @@ func raceBuild(s *vs.Sched, o raceOpts, dir string) {
 		}
 		done := vs.MakeChan[int](0)
 		wdone := [3]*vs.Chan[int]{nil, vs.MakeChan[int](1), vs.MakeChan[int](1)}
+		first := vs.MakeChan[int](2)
 		for i := 1; i <= 2; i++ {
 			i := i
 			vs.Go(fmt.Sprintf("writer%d", i), func() {
@@ -94,6 +95,9 @@ func raceBuild(s *vs.Sched, o raceOpts, dir string) {
 					}
 					coll.ExecuteBatch(b, moss.WriteOptions{})
 					b.Close()
+					if i == 1 && j == 1 {
+						first.Send(1)
+					}
 				}
 				wdone[i].Send(i)
 				done.Send(i)
@@ -158,8 +162,23 @@ func raceBuild(s *vs.Sched, o raceOpts, dir string) {
 			}
 			done.Send(4)
 		})
+		// second late reader: takes a snapshot as soon as writer 1 has executed its first batch and reads it a few
+		// scheduling turns later without any synchronisation in between (yields add no happens-before edge)
+		vs.Go("lazyreader", func() {
+			first.Recv()
+			ss, err := coll.Snapshot()
+			for i := 0; i < 4; i++ {
+				vs.Yield("lazy")
+			}
+			if err == nil {
+				ss.Get([]byte("m1"), moss.ReadOptions{})
+				ss.Get([]byte("p1"), moss.ReadOptions{})
+				ss.Close()
+			}
+			done.Send(6)
+		})
 		// closer: waits for everybody, then closes collection and store
-		for n := 0; n < 5; n++ {
+		for n := 0; n < 6; n++ {
 			done.Recv()
 		}
 		coll.Close()
